@@ -32,11 +32,11 @@ echo "build: $build"; echo "suite-nonok: [$suite]"; echo "demo with change: $dem
 rm -f $demodir/zz_seeded_demo_test.go
 git apply $out/patch.diff
 cd /verif
-q=$(VERIF_REPO=$scratch timeout 900 ./bin/vcheck run --property $prop --tier quick --no-evidence 2>&1 | grep "^VIOLATION\|^  obligation\|^INCONCLUSIVE\|exit=" | cut -c1-260)
+q=$(VERIF_REPO=$scratch timeout 900 ${VCHECK:-./bin/vcheck} run --property $prop --tier quick --no-evidence 2>&1 | grep "^VIOLATION\|^  obligation\|^INCONCLUSIVE\|exit=" | cut -c1-260)
 echo "QUICK: $q"
 caught=quick
 if ! echo "$q" | grep -q "^VIOLATION"; then
-  t=$(VERIF_REPO=$scratch timeout 1200 ./bin/vcheck run --property $prop --tier thorough --no-evidence 2>&1 | grep "^VIOLATION\|^  obligation\|^INCONCLUSIVE\|exit=" | cut -c1-260)
+  t=$(VERIF_REPO=$scratch timeout 1200 ${VCHECK:-./bin/vcheck} run --property $prop --tier thorough --no-evidence 2>&1 | grep "^VIOLATION\|^  obligation\|^INCONCLUSIVE\|exit=" | cut -c1-260)
   echo "THOROUGH: $t"
   caught=thorough
   echo "$t" | grep -q "^VIOLATION" || caught=missed
